@@ -50,10 +50,12 @@ type Keychain struct {
 
 // GetSecret implements the bcrypt authenticator's getSecret seam.
 func (k *Keychain) GetSecret(ctx context.Context, name, group string) ([]byte, error) {
-	k.w.Rec(world.Ev{Actor: "keychain", Kind: "keychain-get", S: name})
-	k.w.Park("keychain")
-	k.mu.Lock()
-	defer k.mu.Unlock()
+	if !k.w.Quiet {
+		k.w.Rec(world.Ev{Actor: "keychain", Kind: "keychain-get", S: name})
+		k.w.Park("keychain")
+		k.mu.Lock()
+		defer k.mu.Unlock()
+	}
 	if k.Fail[name] {
 		k.w.Fault("keychain-error")
 		return nil, fmt.Errorf("keychain unavailable")
